@@ -385,6 +385,12 @@ type world struct {
 	Layouts []layoutJ `json:"-"`
 }
 
+// batchSize: how many points the batch that starts at point i holds (a pure function of the world, so that every layout
+// of a world sees the same batches)
+func (w *world) batchSize(i int) int {
+	return 1 + (i*7+len(w.Points))%6
+}
+
 func genPoints(r *vh.Rand, dups bool) ([]point, int) {
 	var pts []point
 	used := map[[3]int]bool{}
@@ -629,19 +635,42 @@ func runWorld(dir string, w *world, lay layoutJ, r *vh.Rand, only func(qi int, q
 		return res
 	}
 	defer func() { c.close(); _ = os.RemoveAll(dir) }()
-	for i, p := range w.Points {
-		sh, err := c.write(p.proto())
+	// the points go in as broker batches of 1-6 points (cut at the flush), routed by the real batch iterators
+	flushAt := w.FlushAt
+	if os.Getenv("C12_NOFLUSH") != "" {
+		flushAt = 0
+	}
+	for i := 0; i < len(w.Points); {
+		n := w.batchSize(i)
+		if flushAt > i && i+n > flushAt {
+			n = flushAt - i
+		}
+		if i+n > len(w.Points) {
+			n = len(w.Points) - i
+		}
+		var pms []*protoMetricsV1.Metric
+		for _, p := range w.Points[i : i+n] {
+			pms = append(pms, p.proto())
+		}
+		routes, err := c.writeMany(pms)
 		if err != nil {
 			res.fail = "write: " + err.Error()
 			return res
 		}
-		k := [2]int{p.Host, p.Zone}
-		if old, ok := res.routes[k]; ok && old != sh {
-			res.fail = fmt.Sprintf("series %v routed to shard %d and to shard %d", k, old, sh)
+		if len(routes) != n {
+			res.fail = fmt.Sprintf("a batch of %d points handed %d rows to the shards", n, len(routes))
 			return res
 		}
-		res.routes[k] = sh
-		if w.FlushAt > 0 && i+1 == w.FlushAt && os.Getenv("C12_NOFLUSH") == "" {
+		for _, rr := range routes {
+			k := [2]int{indexOf(hosts, rr.Host), indexOf(zones, rr.Zone)}
+			if old, ok := res.routes[k]; ok && old != rr.Shard {
+				res.fail = fmt.Sprintf("series %v routed to shard %d and to shard %d", k, old, rr.Shard)
+				return res
+			}
+			res.routes[k] = rr.Shard
+		}
+		i += n
+		if flushAt > 0 && i == flushAt {
 			if err := c.flushAll(); err != nil {
 				res.fail = "flush: " + err.Error()
 				return res
